@@ -24,7 +24,7 @@ import (
 func init() {
 	Registry["C11"] = &Check{
 		Scenarios: c11Scenarios,
-		Rule: "every CER over Origin-Host {absent, present} x Origin-Realm {absent, present} x Inband-Security-Id {absent, 0, 1, 2^31-1, the list [0, 1]} x every sequence (so every order) of <=2 (thorough 3) application AVPs over 20 atoms (18 + Auth / Acct of an application id that a dictionary loaded into dict.Default declares under both types): Acct-Application-Id {3 supported, 4 wrong type, 999 unsupported, relay}, Auth-Application-Id {4, 3 wrong type, 999, relay}, Vendor-Specific-Application-Id groups {[Vendor-Id, Auth 4], [Auth 999, Vendor-Id], [Vendor-Id, Auth 999], [Vendor-Id, Acct 3], [Vendor-Id], [Auth 16777251], [Acct 999], [Auth 4, Auth 999], [Auth 999, Auth 4], []}; settings with configured HostIPAddresses, with the deprecated single HostIPAddress only, and without configured addresses; local endpoint over {10.1.2.3, loopback, an IPv6 address in brackets, a multihomed SCTP endpoint 127.0.0.1/10.1.2.3/[2001:db8::7]}; hop-by-hop / end-to-end ids rotate over {0,1,2^31,2^32-1}. Each CER is sent end-to-end, on a connection of its own, to ONE state machine per scenario (so a verdict that depends on earlier CERs is caught; the visiting order alternates rich and poor CERs) over the in-memory transport, followed by an RAR whose gated handler reads the connection metadata. One deterministic schedule per CER (the quantifier is over inputs).",
+		Rule: "every CER over Origin-Host {absent, present} x Origin-Realm {absent, present} x Inband-Security-Id {absent, 0, 1, 2^31-1, the list [0, 1], code 299 under a foreign vendor id (not the IETF AVP)} x every sequence (so every order) of <=2 (thorough 3) application AVPs over 20 atoms (18 + Auth / Acct of an application id that a dictionary loaded into dict.Default declares under both types): Acct-Application-Id {3 supported, 4 wrong type, 999 unsupported, relay}, Auth-Application-Id {4, 3 wrong type, 999, relay}, Vendor-Specific-Application-Id groups {[Vendor-Id, Auth 4], [Auth 999, Vendor-Id], [Vendor-Id, Auth 999], [Vendor-Id, Acct 3], [Vendor-Id], [Auth 16777251], [Acct 999], [Auth 4, Auth 999], [Auth 999, Auth 4], []}; settings with configured HostIPAddresses, with the deprecated single HostIPAddress only, and without configured addresses; local endpoint over {10.1.2.3, loopback, an IPv6 address in brackets, a multihomed SCTP endpoint 127.0.0.1/10.1.2.3/[2001:db8::7]}; hop-by-hop / end-to-end ids rotate over {0,1,2^31,2^32-1}. Each CER is sent end-to-end, on a connection of its own, to ONE state machine per scenario (so a verdict that depends on earlier CERs is caught; the visiting order alternates rich and poor CERs) over the in-memory transport, followed by an RAR whose gated handler reads the connection metadata. One deterministic schedule per CER (the quantifier is over inputs).",
 		Assume: []string{"reference acceptance predicate written from the statement, with application support read from the independent refdict model of the embedded XML", "single default schedule per input"},
 		QuickBudget: 120, ThoroughBudget: 1800,
 	}
@@ -81,6 +81,9 @@ const c11DualXML = `<?xml version="1.0" encoding="UTF-8"?>
 // c11InbandList stands for a CER with two Inband-Security-Id AVPs, [0, 1].
 const c11InbandList = -2
 
+// c11InbandForeign stands for a CER carrying AVP code 299 with the V flag and a foreign vendor id.
+const c11InbandForeign = -3
+
 var c11Model *refdict.Model
 
 func c11Supported(typ string, id uint32) bool {
@@ -114,7 +117,7 @@ func c11Scenarios(tier string) []*Scenario {
 	var out []*Scenario
 	for _, host := range []bool{true, false} {
 		for _, realm := range []bool{true, false} {
-			for _, inband := range []int{-1, 0, 1, 0x7fffffff, c11InbandList} {
+			for _, inband := range []int{-1, 0, 1, 0x7fffffff, c11InbandList, c11InbandForeign} {
 				for _, cfgIP := range []bool{true, false} {
 					for loop := 0; loop < len(c11Locals); loop++ {
 						if cfgIP && loop >= 2 {
@@ -222,7 +225,10 @@ func c11Run(r *SeqResult, host, realm bool, inband int, cfgIP bool, loop int, ma
 			avps = append(avps, ident(296, "example"))
 		}
 		avps = append(avps, refcodec.Node{Code: 257, Flags: 0x40, Payload: refcodec.Address(1, []byte{10, 0, 0, 9})}, u32avp(266, 13), refcodec.Node{Code: 269, Payload: []byte("x")})
-		if inband == c11InbandList {
+		if inband == c11InbandForeign {
+			// code 299 in another vendor's name space: not the IETF Inband-Security-Id at all
+			avps = append(avps, refcodec.Node{Code: 299, Flags: 0xC0, Vendor: 4242, Payload: []byte{0, 0, 0, 1}})
+		} else if inband == c11InbandList {
 			// two Inband-Security-Id AVPs: NO_INBAND_SECURITY first, then TLS - the peer does not
 			// require in-band security
 			avps = append(avps, u32avp(299, 0), u32avp(299, 1))
@@ -243,7 +249,7 @@ func c11Run(r *SeqResult, host, realm bool, inband int, cfgIP bool, loop int, ma
 			}
 		}
 		cer := refcodec.EncodeMessage(refcodec.Header{Version: 1, Flags: 0x80, Code: 257, HbH: hbh, E2E: ee}, avps)
-		accept := host && realm && (inband <= 0 || inband == c11InbandList) && len(shared) > 0
+		accept := host && realm && (inband <= 0 || inband == c11InbandList || inband == c11InbandForeign) && len(shared) > 0
 		// run
 		var cea *PMsg
 		var meta *smpeer.Metadata
